@@ -56,6 +56,7 @@ pub fn exercise(b: &Board, depth: u32) -> u64 {
 }
 
 pub fn c06_case(input: &[u8]) -> Vec<Divergence> {
+    set_case(|| json!({"property": "C06", "case": {"kind": "bytes", "hex": hex(input)}}).to_string());
     let r = std::panic::catch_unwind(|| chess_movegen::fen::parse_fen(input));
     match r {
         Err(_) => vec![Divergence::new("parser-panics", format!("parse_fen(0x{} = {:?}) panicked", hex(input), String::from_utf8_lossy(input)))],
@@ -184,7 +185,7 @@ fn run_case(input: &[u8], report: &Report, c: &Counters) {
 
 pub fn run_c06(args: &Args) -> i32 {
     let report = Report::new("C06", args.tier, args.seed, "exploration");
-    std::panic::set_hook(Box::new(|_| {}));
+    silence_panics();
     let seeds = seeds();
     let c = Counters { parses: AtomicU64::new(0), accepted: AtomicU64::new(0) };
     let all_bytes: Vec<u8> = (0..=255u8).collect();
@@ -206,7 +207,7 @@ pub fn run_c06(args: &Args) -> i32 {
     eprintln!("[C06] single edits done: {single} parses, {:.1}s", report.start.elapsed().as_secs_f64());
 
     // 2. double edits over the representative alphabet
-    let n_double_seeds = if quick { 30.min(seeds.len()) } else { seeds.len() };
+    let n_double_seeds = if reduced() { 3 } else if quick { 30.min(seeds.len()) } else { seeds.len() };
     // quick picks the seeds with the richest field shapes first (rights, ep, clocks)
     let mut ranked: Vec<&String> = seeds.iter().collect();
     ranked.sort_by_key(|s| (!(s.contains("KQkq") || s.contains(" e3 ") || s.contains(" e6 ") || s.contains(" d6 ") || s.contains("9999")), s.len()));
@@ -227,7 +228,7 @@ pub fn run_c06(args: &Args) -> i32 {
     eprintln!("[C06] double edits done: {double} parses, {:.1}s", report.start.elapsed().as_secs_f64());
 
     // 3. every string of length <= L over the alphabet
-    let maxlen = if quick { 5 } else { 6 };
+    let maxlen = if reduced() { 4 } else if quick { 5 } else { 6 };
     let k = ALPHABET.len() as u64;
     for len in 0..=maxlen {
         let total = k.pow(len as u32);
@@ -311,7 +312,7 @@ pub fn run_c06(args: &Args) -> i32 {
     // 6. builder call sequences
     let (builds, built_ok) = builder_sequences(&report, quick);
     eprintln!("[C06] builder done: {builds} sequences, {:.1}s", report.start.elapsed().as_secs_f64());
-    let _ = std::panic::take_hook();
+    restore_panics();
 
     let parses = c.parses.load(Ordering::Relaxed);
     let accepted = c.accepted.load(Ordering::Relaxed);
@@ -375,6 +376,7 @@ pub struct BuildSeq {
 }
 
 pub fn builder_case(seq: &BuildSeq) -> (bool, Vec<Divergence>) {
+    set_case(|| json!({"property": "C06", "case": {"kind": "builder", "seq": seq_to_json(seq)}}).to_string());
     let r = std::panic::catch_unwind(|| {
         let mut b = Board::builder();
         let mut place_errors = 0;
@@ -475,7 +477,7 @@ fn builder_sequences(report: &Report, quick: bool) -> (u64, u64) {
 }
 
 pub fn replay_c06(case: &Value) -> Vec<Divergence> {
-    std::panic::set_hook(Box::new(|_| {}));
+    silence_panics();
     match case["kind"].as_str() {
         Some("bytes") => c06_case(&unhex(case["hex"].as_str().unwrap())),
         Some("reachable") => c06_reachable_case(case["fen"].as_str().unwrap()),
